@@ -3,8 +3,22 @@ import EgoVerif.C22.Model
 C22 theorems.  All of them are about `World.fixed = true` (the code with fixes/C22.patch) except
 `C22_unpatched_counterexample`, which shows the code before the patch accepting a revoked token.
 
-Everything is quantified over the library verdict `W.lib`, the JWKS, the configuration and the whole
-history (a `List Op`, including arbitrary cache evictions/purges at arbitrary moments).
+Everything is quantified over the library verdict `W.lib`, the JWKS document at start-up, the configuration
+(JWKS cache TTL included) and the whole history (a `List Op`, including arbitrary cache evictions/purges and
+arbitrary replacements of the provider's JWKS document at arbitrary moments).
+
+  * `C22_accept_implies`            every history: accepted ⇒ parsed, RS*/ES*, signature by a key the provider
+                                    HAS PUBLISHED (under the kid the header names) at some instant of the history,
+                                    iss, aud, nbf ≤ now < exp, jti not revoked now
+  * `C22_key_staleness`             … and, for a token with a kid that has no live result-cache entry, that instant is
+                                    NOW or less than one JWKS TTL ago — the staleness keyByID allows, no more
+  * `C22_withdrawn_key_rejected`    history form: once the provider has withdrawn the key and one TTL has passed, a
+                                    never-presented token signed with it is rejected, whatever else happened
+  * `C22_nokid_stale_counterexample` tokens WITHOUT kid escape the bound (allKeys never looks at the age) — known finding
+  * `C22_revocation_effective`      revocation takes effect for every later request (every history)
+  * `C22_present_eq_spec`, `C22_seen_or_not`, `C22_valid_accepted`, `C22_accept_implies_fixed_keys`
+                                    while the provider does not change its document, the JWKS cache (TTL refresh,
+                                    unknown-kid cooldown) and the result cache are transparent
 -/
 namespace EgoVerif.C22
 
@@ -101,9 +115,387 @@ theorem selectKey_published {ks : List Jwk} {alg : AlgFam} {kid k : Nat}
         obtain ⟨j, hj, h1, h2, h3⟩ := usable_head_mem hu
         exact ⟨j, hj, h1, h2, by rw [h3, h], fun hh => absurd hh hk⟩
 
+/-! ## the provider's publication record -/
+
+theorem findKeyByID_some {l : List PubKey} {kid k : Nat} (h : findKeyByID l kid = some k) :
+    ∃ e, e ∈ l ∧ e.kid = kid ∧ e.id = k := by
+  induction l with
+  | nil => simp [findKeyByID] at h
+  | cons a l ih =>
+    simp only [findKeyByID] at h
+    by_cases hk : a.kid = kid
+    · simp [hk] at h
+      exact ⟨a, by simp, hk, h⟩
+    · simp [hk] at h
+      obtain ⟨e, he, r⟩ := ih h
+      exact ⟨e, by simp [he], r⟩
+
+theorem publishes_of_mem {doc : List Jwk} {e : PubKey} (h : e ∈ usable doc) :
+    publishes doc e.kid e.id = true := by
+  unfold publishes
+  exact List.any_eq_true.mpr ⟨e, h, by simp⟩
+
+/-- `q` knows at least as recent a publication of every key as `p` -/
+def Prov.le (p q : Prov) : Prop :=
+  ∀ kid id τ, p.last kid id = some τ → ∃ τ', q.last kid id = some τ' ∧ τ ≤ τ'
+
+theorem Prov.le_refl (p : Prov) : p.le p := fun _ _ τ h => ⟨τ, h, Nat.le_refl _⟩
+
+structure Prov.WF (p : Prov) : Prop where
+  lastLe : ∀ kid id τ, p.last kid id = some τ → τ ≤ p.now
+  cur : ∀ kid id, publishes p.doc kid id = true → p.last kid id = some p.now
+
+theorem Prov.mark_wf {p : Prov} (h : ∀ kid id τ, p.last kid id = some τ → τ ≤ p.now) : p.mark.WF := by
+  refine ⟨fun kid id τ hl => ?_, fun kid id hp => ?_⟩
+  · simp only [Prov.mark] at hl
+    by_cases hp : publishes p.doc kid id = true
+    · simp [hp] at hl
+      simp only [Prov.mark]
+      omega
+    · simp [hp] at hl
+      exact h kid id τ hl
+  · simp only [Prov.mark] at hp ⊢
+    simp [hp]
+
+theorem Prov.mark_le {p : Prov} (h : ∀ kid id τ, p.last kid id = some τ → τ ≤ p.now) : p.le p.mark := by
+  intro kid id τ hl
+  simp only [Prov.mark]
+  by_cases hp : publishes p.doc kid id = true
+  · exact ⟨p.now, by simp [hp], h kid id τ hl⟩
+  · exact ⟨τ, by simp [hp, hl], Nat.le_refl _⟩
+
+theorem Prov.init_wf (t0 : Nat) (jwks : List Jwk) : (Prov.init t0 jwks).WF :=
+  Prov.mark_wf (by intro _ _ _ h; cases h)
+
+theorem Prov.step_wf {p : Prov} (h : p.WF) (o : Op) : (p.step o).WF := by
+  cases o with
+  | advance dt =>
+    exact Prov.mark_wf (p := { p with now := p.now + dt })
+      (fun kid id τ hl => Nat.le_trans (h.lastLe kid id τ hl) (Nat.le_add_right _ _))
+  | setKeys doc => exact Prov.mark_wf (p := { p with doc := doc, rotated := true }) h.lastLe
+  | present _ => exact h
+  | revoke _ => exact h
+  | unrevoke _ => exact h
+  | flush => exact h
+  | purge => exact h
+  | evict _ => exact h
+  | blEvict _ => exact h
+
+theorem Prov.step_le {p : Prov} (h : p.WF) (o : Op) : p.le (p.step o) := by
+  cases o with
+  | advance dt =>
+    exact Prov.mark_le (p := { p with now := p.now + dt })
+      (fun kid id τ hl => Nat.le_trans (h.lastLe kid id τ hl) (Nat.le_add_right _ _))
+  | setKeys doc => exact Prov.mark_le (p := { p with doc := doc, rotated := true }) h.lastLe
+  | present _ => exact p.le_refl
+  | revoke _ => exact p.le_refl
+  | unrevoke _ => exact p.le_refl
+  | flush => exact p.le_refl
+  | purge => exact p.le_refl
+  | evict _ => exact p.le_refl
+  | blEvict _ => exact p.le_refl
+
+theorem Prov.step_now (p : Prov) (o : Op) : (p.step o).now = clkStep p.now o := by
+  cases o <;> rfl
+
+theorem Prov.step_doc (p : Prov) (o : Op) :
+    (p.step o).doc = match o with | .setKeys d => d | _ => p.doc := by
+  cases o <;> rfl
+
+theorem Prov.run_now (ops : List Op) : ∀ p : Prov, (Prov.run p ops).now = clock p.now ops := by
+  induction ops with
+  | nil => intro p; rfl
+  | cons o os ih => intro p; simp only [Prov.run, clock]; rw [ih, Prov.step_now]
+
+theorem Prov.run_wf (ops : List Op) : ∀ {p : Prov}, p.WF → (Prov.run p ops).WF := by
+  induction ops with
+  | nil => intro p h; exact h
+  | cons o os ih => intro p h; exact ih (Prov.step_wf h o)
+
+theorem Prov.run_append (a b : List Op) : ∀ p : Prov, Prov.run p (a ++ b) = Prov.run (Prov.run p a) b := by
+  induction a with
+  | nil => intro p; rfl
+  | cons o os ih => intro p; simp only [List.cons_append, Prov.run]; exact ih _
+
+theorem clock_append (a b : List Op) : ∀ t : Nat, clock t (a ++ b) = clock (clock t a) b := by
+  induction a with
+  | nil => intro t; rfl
+  | cons o os ih => intro t; simp only [List.cons_append, clock]; exact ih _
+
+theorem clock_mono (ops : List Op) : ∀ t : Nat, t ≤ clock t ops := by
+  induction ops with
+  | nil => intro t; exact Nat.le_refl _
+  | cons o os ih =>
+    intro t
+    simp only [clock]
+    refine Nat.le_trans ?_ (ih _)
+    cases o <;> simp [clkStep]
+
+/-- a history without `setKeys` leaves the provider's document alone -/
+theorem Prov.run_noRotation (ops : List Op) : ∀ p : Prov, noRotation ops = true →
+    (Prov.run p ops).rotated = p.rotated := by
+  induction ops with
+  | nil => intro p _; rfl
+  | cons o os ih =>
+    intro p h
+    cases o with
+    | setKeys d => simp [noRotation] at h
+    | advance dt => simp only [Prov.run]; rw [ih _ (by simpa [noRotation] using h)]; rfl
+    | present _ => simp only [Prov.run]; rw [ih _ (by simpa [noRotation] using h)]; rfl
+    | revoke _ => simp only [Prov.run]; rw [ih _ (by simpa [noRotation] using h)]; rfl
+    | unrevoke _ => simp only [Prov.run]; rw [ih _ (by simpa [noRotation] using h)]; rfl
+    | flush => simp only [Prov.run]; rw [ih _ (by simpa [noRotation] using h)]; rfl
+    | purge => simp only [Prov.run]; rw [ih _ (by simpa [noRotation] using h)]; rfl
+    | evict _ => simp only [Prov.run]; rw [ih _ (by simpa [noRotation] using h)]; rfl
+    | blEvict _ => simp only [Prov.run]; rw [ih _ (by simpa [noRotation] using h)]; rfl
+
+/-- a key that no document of the history publishes keeps its record -/
+theorem Prov.run_last_unchanged (kid id : Nat) (ops : List Op) : ∀ p : Prov,
+    publishes p.doc kid id = false → (∀ d, Op.setKeys d ∈ ops → publishes d kid id = false) →
+    (Prov.run p ops).last kid id = p.last kid id := by
+  induction ops with
+  | nil => intro p _ _; rfl
+  | cons o os ih =>
+    intro p hp hd
+    have hd' : ∀ d, Op.setKeys d ∈ os → publishes d kid id = false := fun d h => hd d (by simp [h])
+    cases o with
+    | setKeys d =>
+      have hdd := hd d (by simp)
+      simp only [Prov.run]
+      rw [ih _ (by simpa [Prov.step, Prov.mark] using hdd) hd']
+      simp [Prov.step, Prov.mark, hdd]
+    | advance dt =>
+      simp only [Prov.run]
+      rw [ih _ (by simpa [Prov.step, Prov.mark] using hp) hd']
+      simp [Prov.step, Prov.mark, hp]
+    | present _ => exact ih p hp hd'
+    | revoke _ => exact ih p hp hd'
+    | unrevoke _ => exact ih p hp hd'
+    | flush => exact ih p hp hd'
+    | purge => exact ih p hp hd'
+    | evict _ => exact ih p hp hd'
+    | blEvict _ => exact ih p hp hd'
+
+/-- **The verifying key was published, and recently enough**, relative to the instant `v` at which the
+    token's signature was checked: the signature verifies under key `id`; the provider's document published
+    `id` (under the kid the header names, if it names one) at an instant `τ`; and for a token WITH a kid,
+    `τ` is not before `v` or less than one JWKS TTL before `v`. -/
+def KeyWas (W : World) (p : Prov) (t : Tok) (v : Nat) : Prop :=
+  (t.alg = .rsa ∨ t.alg = .ecdsa) ∧
+  ∃ kid id τ, t.sigBy = some id ∧ (t.kid ≠ 0 → kid = t.kid) ∧ p.last kid id = some τ ∧
+    (t.kid ≠ 0 → v ≤ τ ∨ v < τ + W.jwksTTL)
+
+theorem KeyWas.mono {W : World} {p q : Prov} {t : Tok} {v : Nat} (h : KeyWas W p t v) (hle : p.le q) :
+    KeyWas W q t v := by
+  obtain ⟨ha, kid, id, τ, h1, h2, h3, h4⟩ := h
+  obtain ⟨τ', h5, h6⟩ := hle kid id τ h3
+  refine ⟨ha, kid, id, τ', h1, h2, h5, fun hk => ?_⟩
+  have := h4 hk
+  omega
+
+/-! ## the JWKS cache: jwks.go -/
+
+/-- what the JWKS cache holds was published by the provider at the time of the fetch or later -/
+structure JInv (s : St) (p : Prov) : Prop where
+  hnow : s.now = p.now
+  hdoc : s.pub = p.doc
+  jc : ∀ e, e ∈ s.jc → ∃ τ, p.last e.kid e.id = some τ ∧ s.jcAt ≤ τ
+
+/-- the parts of the state the key lookup never touches -/
+structure Frame (s s' : St) : Prop where
+  now : s'.now = s.now
+  cache : s'.cache = s.cache
+  revoked : s'.revoked = s.revoked
+  blCache : s'.blCache = s.blCache
+  pub : s'.pub = s.pub
+
+theorem Frame.rfl' (s : St) : Frame s s := ⟨rfl, rfl, rfl, rfl, rfl⟩
+
+theorem Frame.trans {a b c : St} (h1 : Frame a b) (h2 : Frame b c) : Frame a c :=
+  ⟨h2.now.trans h1.now, h2.cache.trans h1.cache, h2.revoked.trans h1.revoked, h2.blCache.trans h1.blCache,
+   h2.pub.trans h1.pub⟩
+
+/-- the provider still serves its start-up document and the JWKS cache holds exactly its usable keys -/
+def FixJ (W : World) (s : St) : Prop := s.pub = W.jwks ∧ s.jc = usable W.jwks
+
+theorem refresh_cases (s : St) :
+    ((refreshJWKS s).2 = false ∧ (refreshJWKS s).1 = s ∧ usable s.pub = []) ∨
+    ((refreshJWKS s).2 = true ∧ (refreshJWKS s).1 = { s with jc := usable s.pub, jcAt := s.now } ∧
+      usable s.pub ≠ []) := by
+  unfold refreshJWKS
+  cases h : usable s.pub with
+  | nil => exact Or.inl ⟨rfl, rfl, rfl⟩
+  | cons e es => exact Or.inr ⟨rfl, rfl, by simp⟩
+
+structure LookOK (W : World) (p : Prov) (s : St) (kid : Nat) (r : St × Option Nat) : Prop where
+  frame : Frame s r.1
+  jinv : JInv r.1 p
+  key : ∀ k, r.2 = some k → ∃ τ, p.last kid k = some τ ∧ s.now ≤ τ
+  fix : FixJ W s → FixJ W r.1 ∧ r.2 = findKeyByID (usable W.jwks) kid
+
+theorem lookupAfterRefresh_ok {W : World} {p : Prov} {s : St} (hw : p.WF) (hj : JInv s p) (kid : Nat) :
+    LookOK W p s kid (lookupAfterRefresh s kid) := by
+  unfold lookupAfterRefresh
+  rcases refresh_cases s with ⟨h2, h1, hu⟩ | ⟨h2, h1, hu⟩
+  · simp only [h2, h1]
+    refine ⟨Frame.rfl' s, hj, fun k hk => by simp at hk, fun hf => ⟨hf, ?_⟩⟩
+    rw [← hf.1, hu]
+    simp [findKeyByID]
+  · simp only [h2, h1, if_true]
+    have hjc : ∀ e, e ∈ usable s.pub → p.last e.kid e.id = some p.now := by
+      intro e he
+      apply hw.cur
+      rw [← hj.hdoc]
+      exact publishes_of_mem he
+    refine ⟨⟨rfl, rfl, rfl, rfl, rfl⟩, ⟨hj.hnow, hj.hdoc, fun e he => ⟨p.now, hjc e he, Nat.le_of_eq hj.hnow⟩⟩,
+      fun k hk => ?_, fun hf => ⟨⟨hf.1, by show usable s.pub = usable W.jwks; rw [hf.1]⟩, ?_⟩⟩
+    · obtain ⟨e, he, h3, h4⟩ := findKeyByID_some hk
+      have := hjc e he
+      rw [h3, h4] at this
+      exact ⟨p.now, this, Nat.le_of_eq hj.hnow⟩
+    · show findKeyByID (usable s.pub) kid = _
+      rw [hf.1]
+
+structure SelOK (W : World) (p : Prov) (s : St) (alg : AlgFam) (kid : Nat) (r : St × Option Nat) : Prop where
+  frame : Frame s r.1
+  jinv : JInv r.1 p
+  key : ∀ k, r.2 = some k → alg ≠ .other ∧ ∃ kid' τ, (kid ≠ 0 → kid' = kid) ∧ p.last kid' k = some τ ∧
+    (kid ≠ 0 → s.now ≤ τ ∨ s.now < τ + W.jwksTTL)
+  fix : FixJ W s → FixJ W r.1 ∧ r.2 = selectKey (usable W.jwks) alg kid
+
+theorem selectKey_kid {keys : List PubKey} {alg : AlgFam} {kid : Nat} (ha : alg ≠ .other) (hk : kid ≠ 0) :
+    selectKey keys alg kid = findKeyByID keys kid := by
+  simp [selectKey, ha, hk]
+
+/-- keyByID: whatever it returns was published under that kid now or less than one TTL ago -/
+theorem keyByID_ok {W : World} {p : Prov} {s : St} (hw : p.WF) (hj : JInv s p) {alg : AlgFam} (ha : alg ≠ .other)
+    {kid : Nat} (hk : kid ≠ 0) : SelOK W p s alg kid (keyByID W s kid) := by
+  unfold keyByID
+  by_cases hfresh : jcFresh W s = true
+  · simp only [hfresh, if_true]
+    cases hfind : findKeyByID s.jc kid with
+    | some k =>
+      refine ⟨Frame.rfl' s, hj, fun k' hk' => ?_, fun hf => ⟨hf, ?_⟩⟩
+      · simp at hk'
+        subst hk'
+        obtain ⟨e, he, h3, h4⟩ := findKeyByID_some hfind
+        obtain ⟨τ, h5, h6⟩ := hj.jc e he
+        rw [h3, h4] at h5
+        refine ⟨ha, kid, τ, fun _ => rfl, h5, fun _ => ?_⟩
+        simp only [jcFresh, Bool.and_eq_true, decide_eq_true_eq] at hfresh
+        omega
+      · rw [selectKey_kid ha hk, ← hf.2, hfind]
+    | none =>
+      by_cases hc : coolingDown s = true
+      · simp only [hc, if_true]
+        refine ⟨Frame.rfl' s, hj, fun k' hk' => by simp at hk', fun hf => ⟨hf, ?_⟩⟩
+        rw [selectKey_kid ha hk, ← hf.2, hfind]
+      · simp only [hc, Bool.false_eq_true, if_false]
+        have hj' : JInv { s with missLast := some s.now } p := ⟨hj.hnow, hj.hdoc, hj.jc⟩
+        have l := lookupAfterRefresh_ok (W := W) hw hj' kid
+        refine ⟨Frame.trans (b := { s with missLast := some s.now }) ⟨rfl, rfl, rfl, rfl, rfl⟩ l.frame, l.jinv, fun k' hk' => ?_, fun hf => ?_⟩
+        · obtain ⟨τ, h5, h6⟩ := l.key k' hk'
+          exact ⟨ha, kid, τ, fun _ => rfl, h5, fun _ => Or.inl h6⟩
+        · have := l.fix hf
+          exact ⟨this.1, by rw [selectKey_kid ha hk]; exact this.2⟩
+  · simp only [hfresh]
+    have l := lookupAfterRefresh_ok (W := W) hw hj kid
+    refine ⟨l.frame, l.jinv, fun k' hk' => ?_, fun hf => ?_⟩
+    · obtain ⟨τ, h5, h6⟩ := l.key k' hk'
+      exact ⟨ha, kid, τ, fun _ => rfl, h5, fun _ => Or.inl h6⟩
+    · have := l.fix hf
+      exact ⟨this.1, by rw [selectKey_kid ha hk]; exact this.2⟩
+
+/-- selectVerificationKey -/
+theorem selectKeyS_ok {W : World} {p : Prov} {s : St} (hw : p.WF) (hj : JInv s p) (alg : AlgFam) (kid : Nat) :
+    SelOK W p s alg kid (selectKeyS W s alg kid) := by
+  unfold selectKeyS
+  by_cases ha : alg = .other
+  · rw [if_pos ha]
+    exact ⟨Frame.rfl' s, hj, fun k hk => by simp at hk, fun hf => ⟨hf, by simp [selectKey, ha]⟩⟩
+  · rw [if_neg ha]
+    by_cases hk : kid ≠ 0
+    · rw [if_pos hk]
+      exact keyByID_ok hw hj ha hk
+    · have hk0 : kid = 0 := by omega
+      subst hk0
+      simp only [ne_eq, not_true_eq_false, if_false]
+      -- the state after the optional refresh
+      have hs1 : ∃ s1, (if s.jc.isEmpty = true then (refreshJWKS s).1 else s) = s1 ∧ Frame s s1 ∧ JInv s1 p ∧
+          (FixJ W s → FixJ W s1) := by
+        by_cases he : s.jc.isEmpty = true
+        · simp only [he, if_true]
+          rcases refresh_cases s with ⟨_, h1, _⟩ | ⟨_, h1, _⟩
+          · exact ⟨_, rfl, by rw [h1]; exact Frame.rfl' s, by rw [h1]; exact hj, fun hf => by rw [h1]; exact hf⟩
+          · refine ⟨_, rfl, by rw [h1]; exact ⟨rfl, rfl, rfl, rfl, rfl⟩, ?_, fun hf => ?_⟩
+            · rw [h1]
+              refine ⟨hj.hnow, hj.hdoc, fun e he' => ⟨p.now, ?_, Nat.le_of_eq hj.hnow⟩⟩
+              apply hw.cur
+              rw [← hj.hdoc]
+              exact publishes_of_mem he'
+            · rw [h1]
+              exact ⟨hf.1, by show usable s.pub = usable W.jwks; rw [hf.1]⟩
+        · simp only [he]
+          exact ⟨s, rfl, Frame.rfl' s, hj, fun hf => hf⟩
+      obtain ⟨s1, hs1, hfr, hj1, hfx⟩ := hs1
+      rw [hs1]
+      cases hjc : s1.jc with
+      | nil =>
+        refine ⟨hfr, hj1, fun k hk' => by simp at hk', fun hf => ⟨hfx hf, ?_⟩⟩
+        have := (hfx hf).2
+        rw [hjc] at this
+        simp [selectKey, ha, ← this]
+      | cons e es =>
+        refine ⟨hfr, hj1, fun k hk' => ?_, fun hf => ⟨hfx hf, ?_⟩⟩
+        · simp at hk'
+          subst hk'
+          obtain ⟨τ, h5, _⟩ := hj1.jc e (by rw [hjc]; simp)
+          exact ⟨ha, e.kid, τ, fun h => absurd rfl h, h5, fun h => absurd rfl h⟩
+        · have := (hfx hf).2
+          rw [hjc] at this
+          simp [selectKey, ha, ← this]
+
+structure LibOK (W : World) (p : Prov) (s : St) (t : Tok) (r : St × Bool) : Prop where
+  frame : Frame s r.1
+  jinv : JInv r.1 p
+  acc : r.2 = true → t.parseOK = true ∧ claimsOK W.cfg t s.now = true ∧ KeyWas W p t s.now
+  fix : FixJ W s → FixJ W r.1 ∧ r.2 = libAccepts W t s.now
+
+/-- jwt.ParseWithClaims with the keyfunc of parseAndValidateJWT -/
+theorem libRun_ok {W : World} {p : Prov} {s : St} (hw : p.WF) (hj : JInv s p) (t : Tok) :
+    LibOK W p s t (libRun W s t) := by
+  unfold libRun
+  by_cases hp : t.parseOK = true
+  · simp only [hp, Bool.not_true, Bool.false_eq_true, if_false]
+    have sel := selectKeyS_ok (W := W) hw hj t.alg t.kid
+    refine ⟨sel.frame, sel.jinv, fun hacc => ?_, fun hf => ⟨(sel.fix hf).1, ?_⟩⟩
+    · simp only [Bool.and_eq_true] at hacc
+      obtain ⟨hs, hc⟩ := hacc
+      refine ⟨hp, hc, ?_⟩
+      cases hk : (selectKeyS W s t.alg t.kid).2 with
+      | none => simp [hk] at hs
+      | some k =>
+        simp [hk] at hs
+        obtain ⟨ha, kid', τ, h1, h2, h3⟩ := sel.key k hk
+        refine ⟨?_, kid', k, τ, hs, h1, h2, h3⟩
+        cases hh : t.alg with
+        | rsa => exact Or.inl rfl
+        | ecdsa => exact Or.inr rfl
+        | other => exact absurd hh ha
+    · rw [(sel.fix hf).2]
+      simp [libAccepts, sigOK, hp]
+  · have hp' : t.parseOK = false := by simpa using hp
+    simp only [hp', Bool.not_false, if_true]
+    exact ⟨Frame.rfl' s, hj, fun h => by simp at h, fun hf => ⟨hf, by simp [libAccepts, hp']⟩⟩
+
+/-- under a provider that never changed its document, the stateful key selection is the pure one -/
+theorem selectKeyS_fixed {W : World} {p : Prov} {s : St} (hw : p.WF) (hj : JInv s p) (hf : FixJ W s)
+    (alg : AlgFam) (kid : Nat) : (selectKeyS W s alg kid).2 = selectKey (usable W.jwks) alg kid :=
+  ((selectKeyS_ok (W := W) hw hj alg kid).fix hf).2
+
 /-! ## the invariant -/
 
-/-- the time-independent part of the library's verdict -/
+/-- the time-independent part of the library's verdict (fixed key set) -/
 def staticOK (W : World) (t : Tok) : Bool :=
   t.parseOK && sigOK W t && (!W.cfg.audRequired || t.audOK) && (!W.cfg.issRequired || t.issOK)
 
@@ -113,30 +505,61 @@ theorem libAccepts_eq (W : World) (t : Tok) (now : Nat) :
   cases t.parseOK <;> cases sigOK W t <;> cases decide (now < t.exp) <;> cases decide (t.nbf ≤ now) <;>
     cases (!W.cfg.audRequired || t.audOK) <;> cases (!W.cfg.issRequired || t.issOK) <;> rfl
 
+theorem claimsOK_true {c : Cfg} {t : Tok} {now : Nat} (h : claimsOK c t now = true) :
+    now < t.exp ∧ t.nbf ≤ now ∧ (!c.audRequired || t.audOK) = true ∧ (!c.issRequired || t.issOK) = true := by
+  simp only [claimsOK, Bool.and_eq_true, decide_eq_true_eq] at h
+  exact ⟨h.1.1.1, h.1.1.2, h.1.2, h.2⟩
+
 /-- what must be true of a JWT cache entry -/
-structure GoodEntry (W : World) (now tid : Nat) (e : Entry) : Prop where
-  static : staticOK W (W.lib tid) = true
+structure GoodEntry (W : World) (p : Prov) (now tid : Nat) (e : Entry) : Prop where
+  parsed : (W.lib tid).parseOK = true
+  aud : (!W.cfg.audRequired || (W.lib tid).audOK) = true
+  iss : (!W.cfg.issRequired || (W.lib tid).issOK) = true
   nbf : (W.lib tid).nbf ≤ now
   user : userOf W.cfg (W.lib tid) = some e.user
   exp : e.exp = (W.lib tid).exp
   jti : e.jti = (W.lib tid).jti
+  /-- the signature was checked at some instant `v` of the past against a key published recently enough THEN -/
+  key : ∃ v, v ≤ now ∧ KeyWas W p (W.lib tid) v
+  /-- … and while the provider has not changed its document, against the key the specification selects -/
+  keyF : p.rotated = false → sigOK W (W.lib tid) = true
 
-/-- `rv` is the ghost "revoked now" predicate of the history so far -/
-structure Inv (W : World) (s : St) (rv : Nat → Bool) : Prop where
+theorem GoodEntry.mono {W : World} {p q : Prov} {now now' tid : Nat} {e : Entry} (g : GoodEntry W p now tid e)
+    (hle : p.le q) (hn : now ≤ now') (hr : q.rotated = false → p.rotated = false) : GoodEntry W q now' tid e := by
+  obtain ⟨v, hv, hk⟩ := g.key
+  exact ⟨g.parsed, g.aud, g.iss, Nat.le_trans g.nbf hn, g.user, g.exp, g.jti, ⟨v, Nat.le_trans hv hn, hk.mono hle⟩,
+    fun h => g.keyF (hr h)⟩
+
+/-- `rv` is the ghost "revoked now" predicate of the history so far, `p` the provider's publication record -/
+structure Inv (W : World) (s : St) (rv : Nat → Bool) (p : Prov) : Prop where
   store : ∀ j, s.revoked.contains j = rv j
   blc : ∀ j a, lookupK s.blCache j = some a → a = rv j
-  cache : ∀ tid e, lookupK s.cache tid = some e → GoodEntry W s.now tid e
+  wf : p.WF
+  j : JInv s p
+  fix : p.rotated = false → FixJ W s
+  cache : ∀ tid e, lookupK s.cache tid = some e → GoodEntry W p s.now tid e
 
-theorem inv_init (W : World) (t0 : Nat) : Inv W (init t0) (fun _ => false) :=
-  ⟨by simp [init], by simp [init, lookupK], by simp [init, lookupK]⟩
+theorem inv_init (W : World) (t0 : Nat) : Inv W (init t0 W.jwks) (fun _ => false) (Prov.init t0 W.jwks) := by
+  refine ⟨by simp [init], by simp [init, lookupK], Prov.init_wf t0 W.jwks, ⟨rfl, rfl, fun e he => ?_⟩,
+    fun _ => ⟨rfl, rfl⟩, by simp [init, lookupK]⟩
+  refine ⟨t0, ?_, Nat.le_refl _⟩
+  exact (Prov.init_wf t0 W.jwks).cur e.kid e.id (publishes_of_mem he)
 
-theorem Inv.delCache {W : World} {s : St} {rv : Nat → Bool} (h : Inv W s rv) (tid : Nat) :
-    Inv W { s with cache := delK s.cache tid } rv :=
-  ⟨h.store, h.blc, fun x e hx => h.cache x e (lookupK_delK_some hx)⟩
+/-- the key lookup only touched the JWKS cache -/
+theorem Inv.reframe {W : World} {s s' : St} {rv : Nat → Bool} {p : Prov} (h : Inv W s rv p) (hfr : Frame s s')
+    (hj : JInv s' p) (hfx : p.rotated = false → FixJ W s') : Inv W s' rv p := by
+  refine ⟨fun j => ?_, fun j a hl => ?_, h.wf, hj, hfx, fun tid e hl => ?_⟩
+  · rw [hfr.revoked]; exact h.store j
+  · rw [hfr.blCache] at hl; exact h.blc j a hl
+  · rw [hfr.cache] at hl; rw [hfr.now]; exact h.cache tid e hl
 
-theorem Inv.addCache {W : World} {s : St} {rv : Nat → Bool} (h : Inv W s rv) (tid : Nat) (e : Entry)
-    (g : GoodEntry W s.now tid e) : Inv W { s with cache := (tid, e) :: delK s.cache tid } rv := by
-  refine ⟨h.store, h.blc, fun x e' hx => ?_⟩
+theorem Inv.delCache {W : World} {s : St} {rv : Nat → Bool} {p : Prov} (h : Inv W s rv p) (tid : Nat) :
+    Inv W { s with cache := delK s.cache tid } rv p :=
+  ⟨h.store, h.blc, h.wf, ⟨h.j.hnow, h.j.hdoc, h.j.jc⟩, h.fix, fun x e hx => h.cache x e (lookupK_delK_some hx)⟩
+
+theorem Inv.addCache {W : World} {s : St} {rv : Nat → Bool} {p : Prov} (h : Inv W s rv p) (tid : Nat) (e : Entry)
+    (g : GoodEntry W p s.now tid e) : Inv W { s with cache := (tid, e) :: delK s.cache tid } rv p := by
+  refine ⟨h.store, h.blc, h.wf, ⟨h.j.hnow, h.j.hdoc, h.j.jc⟩, h.fix, fun x e' hx => ?_⟩
   simp only [lookupK] at hx
   by_cases hxt : x = tid
   · subst hxt
@@ -147,14 +570,15 @@ theorem Inv.addCache {W : World} {s : St} {rv : Nat → Bool} (h : Inv W s rv) (
     exact h.cache x e' (lookupK_delK_some hx)
 
 /-- tokens.IsIDBlacklisted answers the truth (the blacklist cache is coherent) and only touches blCache -/
-theorem isBL_spec {W : World} {s : St} {rv : Nat → Bool} (h : Inv W s rv) (j : Nat) :
-    (isIDBlacklisted s j).2 = rv j ∧ Inv W (isIDBlacklisted s j).1 rv ∧
-    (isIDBlacklisted s j).1.now = s.now ∧ (isIDBlacklisted s j).1.cache = s.cache := by
+theorem isBL_spec {W : World} {s : St} {rv : Nat → Bool} {p : Prov} (h : Inv W s rv p) (j : Nat) :
+    (isIDBlacklisted s j).2 = rv j ∧ Inv W (isIDBlacklisted s j).1 rv p ∧
+    (isIDBlacklisted s j).1.now = s.now ∧ (isIDBlacklisted s j).1.cache = s.cache ∧
+    (isIDBlacklisted s j).1.pub = s.pub := by
   unfold isIDBlacklisted
   cases hl : lookupK s.blCache j with
-  | some a => exact ⟨h.blc j a hl, h, rfl, rfl⟩
+  | some a => exact ⟨h.blc j a hl, h, rfl, rfl, rfl⟩
   | none =>
-    refine ⟨h.store j, ⟨h.store, ?_, h.cache⟩, rfl, rfl⟩
+    refine ⟨h.store j, ⟨h.store, ?_, h.wf, ⟨h.j.hnow, h.j.hdoc, h.j.jc⟩, h.fix, h.cache⟩, rfl, rfl, rfl⟩
     intro x a hx
     simp only [lookupK] at hx
     by_cases hxj : x = j
@@ -165,7 +589,7 @@ theorem isBL_spec {W : World} {s : St} {rv : Nat → Bool} (h : Inv W s rv) (j :
     · simp [hxj] at hx
       exact h.blc x a hx
 
-/-! ## ValidateJWT computes `spec` whatever the caches hold -/
+/-! ## ValidateJWT -/
 
 theorem libAccepts_true {W : World} {t : Tok} {now : Nat} (h : libAccepts W t now = true) :
     staticOK W t = true ∧ now < t.exp ∧ t.nbf ≤ now := by
@@ -173,23 +597,20 @@ theorem libAccepts_true {W : World} {t : Tok} {now : Nat} (h : libAccepts W t no
   simp at h
   exact ⟨h.1.1, h.1.2, h.2⟩
 
-theorem validate_invalid {W : World} {s : St} {tid : Nat} (hl : libAccepts W (W.lib tid) s.now = false) :
-    validate W s tid = (s, .invalid) := by
-  simp [validate, hl]
+theorem core_invalid {W : World} {s : St} {tid : Nat} : validateCore W s tid false = (s, .invalid) := by
+  simp [validateCore]
 
-theorem validate_noclaim {W : World} {s : St} {tid : Nat} (hl : libAccepts W (W.lib tid) s.now = true)
-    (hu : userOf W.cfg (W.lib tid) = none) : validate W s tid = (s, .noclaim) := by
-  have hne : ¬ (W.lib tid).exp < s.now := by have := (libAccepts_true hl).2.1; omega
-  simp [validate, hl, hne, hu]
+theorem core_noclaim {W : World} {s : St} {tid : Nat} (hne : ¬ (W.lib tid).exp < s.now)
+    (hu : userOf W.cfg (W.lib tid) = none) : validateCore W s tid true = (s, .noclaim) := by
+  simp [validateCore, hne, hu]
 
-theorem validate_user {W : World} {s : St} {tid : Nat} {u : User} (hl : libAccepts W (W.lib tid) s.now = true)
+theorem core_user {W : World} {s : St} {tid : Nat} {u : User} (hne : ¬ (W.lib tid).exp < s.now)
     (hu : userOf W.cfg (W.lib tid) = some u) :
-    validate W s tid =
+    validateCore W s tid true =
       (let r := if (W.fixed && decide ((W.lib tid).jti ≠ 0)) = true then isIDBlacklisted s (W.lib tid).jti else (s, false)
        if r.2 = true then (r.1, .revoked)
        else ({ r.1 with cache := (tid, ⟨u, (W.lib tid).exp, (W.lib tid).jti⟩) :: delK r.1.cache tid }, .ok u)) := by
-  have hne : ¬ (W.lib tid).exp < s.now := by have := (libAccepts_true hl).2.1; omega
-  simp [validate, hl, hne, hu]
+  simp [validateCore, hne, hu]
 
 theorem spec_invalid {W : World} {t : Tok} {now : Nat} {rv : Nat → Bool} (hl : libAccepts W t now = false) :
     spec W t now rv = .invalid := by
@@ -204,83 +625,194 @@ theorem spec_user {W : World} {t : Tok} {now : Nat} {rv : Nat → Bool} {u : Use
     spec W t now rv = if (decide (t.jti ≠ 0) && rv t.jti) = true then .revoked else .ok u := by
   simp [spec, hl, hu]
 
-theorem validate_spec {W : World} (hf : W.fixed = true) {s : St} {rv : Nat → Bool} (h : Inv W s rv) (tid : Nat) :
-    (validate W s tid).2 = spec W (W.lib tid) s.now rv ∧ Inv W (validate W s tid).1 rv ∧
-    (validate W s tid).1.now = s.now := by
-  cases hl : libAccepts W (W.lib tid) s.now with
-  | false => rw [validate_invalid hl, spec_invalid hl]; exact ⟨rfl, h, rfl⟩
+/-- the conclusion of the property, for histories in which the provider may change its document -/
+structure Accepted (W : World) (t : Tok) (p : Prov) (rv : Nat → Bool) : Prop where
+  parsed : t.parseOK = true
+  /-- RS*/ES*, and the signature verifies under a key that the provider's document published for signatures
+      (under the kid the header names) at an instant of this history; that instant is not more than one
+      JWKS TTL before the instant `v ≤ now` at which the signature was checked (tokens with a kid) -/
+  key : ∃ v, v ≤ p.now ∧ KeyWas W p t v
+  iss : W.cfg.issRequired = true → t.issOK = true
+  aud : W.cfg.audRequired = true → t.audOK = true
+  notExpired : p.now < t.exp
+  notBefore : t.nbf ≤ p.now
+  notRevoked : t.jti ≠ 0 → rv t.jti = false
+
+theorem orNot_imp {a b : Bool} (h : (!a || b) = true) : a = true → b = true := by
+  cases a <;> cases b <;> simp at h ⊢
+
+/-- what one call of ValidateJWT guarantees -/
+structure CallOK (W : World) (s : St) (rv : Nat → Bool) (p : Prov) (tid : Nat) (r : St × Res) : Prop where
+  inv : Inv W r.1 rv p
+  now : r.1.now = s.now
+  pub : r.1.pub = s.pub
+  /-- the provider never changed its document: the answer is the specification's -/
+  spec : p.rotated = false → r.2 = spec W (W.lib tid) s.now rv
+  acc : ∀ u, r.2 = .ok u → Accepted W (W.lib tid) p rv
+  /-- without a result-cache entry the signature was checked in this very call -/
+  fresh : ∀ u, r.2 = .ok u → lookupK s.cache tid = none → KeyWas W p (W.lib tid) p.now
+  /-- other tokens' result-cache entries are not created here -/
+  other : ∀ x, x ≠ tid → lookupK s.cache x = none → lookupK r.1.cache x = none
+
+theorem validateCore_ok {W : World} (hf : W.fixed = true) {s : St} {rv : Nat → Bool} {p : Prov} (h : Inv W s rv p)
+    (tid : Nat) (la : Bool)
+    (hacc : la = true → (W.lib tid).parseOK = true ∧ claimsOK W.cfg (W.lib tid) s.now = true ∧
+      KeyWas W p (W.lib tid) s.now)
+    (hfix : p.rotated = false → la = libAccepts W (W.lib tid) s.now ∧ (la = true → sigOK W (W.lib tid) = true)) :
+    Inv W (validateCore W s tid la).1 rv p ∧ (validateCore W s tid la).1.now = s.now ∧
+    (validateCore W s tid la).1.pub = s.pub ∧
+    (p.rotated = false → (validateCore W s tid la).2 = spec W (W.lib tid) s.now rv) ∧
+    (∀ u, (validateCore W s tid la).2 = .ok u →
+      Accepted W (W.lib tid) p rv ∧ KeyWas W p (W.lib tid) p.now) ∧
+    (∀ x, x ≠ tid → lookupK s.cache x = none → lookupK (validateCore W s tid la).1.cache x = none) := by
+  cases la with
+  | false =>
+    rw [core_invalid]
+    refine ⟨h, rfl, rfl, fun hr => ?_, fun u hu => (by cases hu), fun x _ hx => hx⟩
+    rw [spec_invalid ((hfix hr).1.symm)]
   | true =>
-    obtain ⟨hst, hexp, hnbf⟩ := libAccepts_true hl
+    obtain ⟨hp, hc, hk⟩ := hacc rfl
+    obtain ⟨hexp, hnbf, haud, hiss⟩ := claimsOK_true hc
+    have hne : ¬ (W.lib tid).exp < s.now := by omega
     cases hu : userOf W.cfg (W.lib tid) with
-    | none => rw [validate_noclaim hl hu, spec_noclaim hl hu]; exact ⟨rfl, h, rfl⟩
+    | none =>
+      rw [core_noclaim hne hu]
+      refine ⟨h, rfl, rfl, fun hr => ?_, fun u hu' => (by cases hu'), fun x _ hx => hx⟩
+      rw [spec_noclaim ((hfix hr).1.symm) hu]
     | some u =>
-      rw [validate_user hl hu, spec_user hl hu, hf]
+      rw [core_user hne hu, hf]
+      have hk' : KeyWas W p (W.lib tid) p.now := by rw [← h.j.hnow]; exact hk
+      have mkAcc : ((W.lib tid).jti ≠ 0 → rv (W.lib tid).jti = false) → Accepted W (W.lib tid) p rv := fun hr =>
+        ⟨hp, ⟨p.now, Nat.le_refl _, hk'⟩, orNot_imp hiss, orNot_imp haud, by rw [← h.j.hnow]; exact hexp,
+          by rw [← h.j.hnow]; exact hnbf, hr⟩
+      have other : ∀ (c : List (Nat × Entry)) (e : Entry) (x : Nat), x ≠ tid → lookupK c x = none →
+          lookupK ((tid, e) :: delK c tid) x = none := by
+        intro c e x hx hc'
+        simp only [lookupK, hx, if_false]
+        rw [lookupK_delK_ne c hx]
+        exact hc'
       by_cases hj : (W.lib tid).jti = 0
-      · have g : GoodEntry W s.now tid ⟨u, (W.lib tid).exp, (W.lib tid).jti⟩ := ⟨hst, hnbf, hu, rfl, rfl⟩
+      · have g : GoodEntry W p s.now tid ⟨u, (W.lib tid).exp, (W.lib tid).jti⟩ :=
+          ⟨hp, haud, hiss, hnbf, hu, rfl, rfl, ⟨s.now, Nat.le_refl _, hk⟩, fun hr => (hfix hr).2 rfl⟩
         simp [hj]
         rw [hj] at g
-        exact h.addCache tid _ g
-      · obtain ⟨b1, b2, b3, b4⟩ := isBL_spec h (W.lib tid).jti
+        refine ⟨h.addCache tid _ g, fun hr => ?_, ⟨mkAcc (fun h0 => absurd hj h0), hk'⟩, fun x hx hc' => ?_⟩
+        · rw [spec_user ((hfix hr).1.symm) hu]
+          simp [hj]
+        · have := other s.cache ⟨u, (W.lib tid).exp, 0⟩ x hx hc'
+          simpa [lookupK, hx] using this
+      · obtain ⟨b1, b2, b3, b4, b5⟩ := isBL_spec h (W.lib tid).jti
         have hd : (true && decide ((W.lib tid).jti ≠ 0)) = true := by simp [hj]
         simp only [hd, if_true]
         by_cases hr : rv (W.lib tid).jti = true
         · rw [b1, hr]
-          simp [hj]
-          exact ⟨b2, b3⟩
+          simp only [if_true]
+          refine ⟨b2, b3, b5, fun hrot => ?_, fun u' hu' => (by cases hu'), fun x _ hx => by rw [b4]; exact hx⟩
+          rw [spec_user ((hfix hrot).1.symm) hu]
+          simp [hj, hr]
         · have hr' : rv (W.lib tid).jti = false := by simpa using hr
           rw [b1, hr']
-          simp
-          refine ⟨?_, b3⟩
-          have g : GoodEntry W (isIDBlacklisted s (W.lib tid).jti).1.now tid ⟨u, (W.lib tid).exp, (W.lib tid).jti⟩ :=
-            ⟨hst, by rw [b3]; exact hnbf, hu, rfl, rfl⟩
-          exact b2.addCache tid _ g
+          simp only [Bool.false_eq_true, if_false]
+          have g : GoodEntry W p (isIDBlacklisted s (W.lib tid).jti).1.now tid ⟨u, (W.lib tid).exp, (W.lib tid).jti⟩ :=
+            ⟨hp, haud, hiss, by rw [b3]; exact hnbf, hu, rfl, rfl, ⟨s.now, by rw [b3]; exact Nat.le_refl _, hk⟩,
+              fun hrot => (hfix hrot).2 rfl⟩
+          refine ⟨b2.addCache tid _ g, b3, b5, fun hrot => ?_, fun u' hu' => ⟨mkAcc (fun _ => hr'), hk'⟩,
+            fun x hx hc' => ?_⟩
+          · rw [spec_user ((hfix hrot).1.symm) hu]
+            simp [hr']
+          · show lookupK ((tid, _) :: delK (isIDBlacklisted s (W.lib tid).jti).1.cache tid) x = none
+            rw [b4]
+            exact other s.cache _ x hx hc'
 
-theorem present_spec {W : World} (hf : W.fixed = true) {s : St} {rv : Nat → Bool} (h : Inv W s rv) (tid : Nat) :
-    (present W s tid).2 = spec W (W.lib tid) s.now rv ∧ Inv W (present W s tid).1 rv ∧
-    (present W s tid).1.now = s.now := by
+theorem validate_ok {W : World} (hf : W.fixed = true) {s : St} {rv : Nat → Bool} {p : Prov} (h : Inv W s rv p)
+    (tid : Nat) :
+    Inv W (validate W s tid).1 rv p ∧ (validate W s tid).1.now = s.now ∧ (validate W s tid).1.pub = s.pub ∧
+    (p.rotated = false → (validate W s tid).2 = spec W (W.lib tid) s.now rv) ∧
+    (∀ u, (validate W s tid).2 = .ok u → Accepted W (W.lib tid) p rv ∧ KeyWas W p (W.lib tid) p.now) ∧
+    (∀ x, x ≠ tid → lookupK s.cache x = none → lookupK (validate W s tid).1.cache x = none) := by
+  unfold validate
+  have l := libRun_ok (W := W) h.wf h.j (W.lib tid)
+  have hfx : p.rotated = false → FixJ W (libRun W s (W.lib tid)).1 := fun hr => (l.fix (h.fix hr)).1
+  have h1 : Inv W (libRun W s (W.lib tid)).1 rv p := h.reframe l.frame l.jinv hfx
+  have := validateCore_ok hf h1 tid (libRun W s (W.lib tid)).2
+    (by rw [l.frame.now]; exact l.acc)
+    (fun hr => by
+      rw [l.frame.now]
+      refine ⟨(l.fix (h.fix hr)).2, fun hla => ?_⟩
+      have := (l.fix (h.fix hr)).2
+      rw [hla] at this
+      have h2 := (libAccepts_true this.symm).1
+      simp only [staticOK, Bool.and_eq_true] at h2
+      exact h2.1.1.2)
+  simp only [l.frame.now, l.frame.pub, l.frame.cache] at this
+  exact this
+
+/-- ValidateJWT -/
+theorem present_ok {W : World} (hf : W.fixed = true) {s : St} {rv : Nat → Bool} {p : Prov} (h : Inv W s rv p)
+    (tid : Nat) : CallOK W s rv p tid (present W s tid) := by
   unfold present
   cases hc : lookupK s.cache tid with
-  | none => exact validate_spec hf h tid
+  | none =>
+    obtain ⟨a1, a2, a3, a4, a5, a6⟩ := validate_ok hf h tid
+    exact ⟨a1, a2, a3, a4, fun u hu => (a5 u hu).1, fun u hu _ => (a5 u hu).2, a6⟩
   | some e =>
     have g := h.cache tid e hc
     by_cases hexp : s.now < e.exp
-    · -- fresh entry: the token is still acceptable to the library, so spec is decided by revocation alone
-      have hlib : libAccepts W (W.lib tid) s.now = true := by
-        rw [libAccepts_eq, g.static]
-        have h1 : s.now < (W.lib tid).exp := by rw [← g.exp]; exact hexp
-        simp [h1, g.nbf]
-      rw [spec_user hlib g.user, ← g.jti]
+    · -- fresh entry: no re-verification
+      have hexp' : s.now < (W.lib tid).exp := by rw [← g.exp]; exact hexp
+      have hlib : p.rotated = false → libAccepts W (W.lib tid) s.now = true := by
+        intro hr
+        rw [libAccepts_eq]
+        simp [staticOK, g.parsed, g.keyF hr, g.aud, g.iss, hexp', g.nbf]
+      have mkAcc : ((W.lib tid).jti ≠ 0 → rv (W.lib tid).jti = false) → Accepted W (W.lib tid) p rv := fun hr =>
+        ⟨g.parsed, by rw [← h.j.hnow]; exact g.key, orNot_imp g.iss, orNot_imp g.aud, by rw [← h.j.hnow]; exact hexp',
+          by rw [← h.j.hnow]; exact g.nbf, hr⟩
       simp only [hexp, if_true]
       by_cases hj : e.jti = 0
-      · simp [hj]
-        exact h
-      · obtain ⟨b1, b2, b3, b4⟩ := isBL_spec h e.jti
+      · simp only [hj, ne_eq, not_true_eq_false, if_false]
+        refine ⟨h, rfl, rfl, fun hr => ?_, fun u _ => mkAcc (fun h0 => absurd (g.jti ▸ hj) h0),
+          fun u _ hn => (by rw [hc] at hn; cases hn), fun x _ hx => hx⟩
+        rw [spec_user (hlib hr) g.user, ← g.jti]
+        simp [hj]
+      · obtain ⟨b1, b2, b3, b4, b5⟩ := isBL_spec h e.jti
         have hj' : (e.jti ≠ 0) := hj
         rw [if_pos hj']
         by_cases hr : rv e.jti = true
         · rw [b1, hr]
-          simp [hj]
-          exact ⟨b2.delCache tid, b3⟩
+          simp only [if_true]
+          refine ⟨b2.delCache tid, b3, b5, fun hrot => ?_, fun u hu => (by cases hu), fun u hu => (by cases hu),
+            fun x hx hcx => ?_⟩
+          · rw [spec_user (hlib hrot) g.user, ← g.jti]
+            simp [hj, hr]
+          · show lookupK (delK (isIDBlacklisted s e.jti).1.cache tid) x = none
+            rw [b4, lookupK_delK_ne s.cache hx]
+            exact hcx
         · have hr' : rv e.jti = false := by simpa using hr
           rw [b1, hr']
-          simp
-          exact ⟨b2, b3⟩
+          simp only [Bool.false_eq_true, if_false]
+          refine ⟨b2, b3, b5, fun hrot => ?_, fun u _ => mkAcc (fun _ => by rw [← g.jti]; exact hr'),
+            fun u _ hn => (by rw [hc] at hn; cases hn), fun x _ hx => by rw [b4]; exact hx⟩
+          rw [spec_user (hlib hrot) g.user, ← g.jti]
+          simp [hr']
     · simp only [hexp, if_false]
-      exact validate_spec hf (h.delCache tid) tid
+      obtain ⟨a1, a2, a3, a4, a5, a6⟩ := validate_ok hf (h.delCache tid) tid
+      refine ⟨a1, a2, a3, a4, fun u hu => (a5 u hu).1, fun u _ hn => (by rw [hc] at hn; cases hn), fun x hx hcx => ?_⟩
+      apply a6 x hx
+      show lookupK (delK s.cache tid) x = none
+      rw [lookupK_delK_ne s.cache hx]
+      exact hcx
 
 /-! ## histories -/
 
-theorem step_inv {W : World} (hf : W.fixed = true) {s : St} {rv : Nat → Bool} (h : Inv W s rv) (o : Op) :
-    Inv W (step W s o).1 (rvStep rv o) ∧ (step W s o).1.now = clkStep s.now o := by
+theorem step_inv {W : World} (hf : W.fixed = true) {s : St} {rv : Nat → Bool} {p : Prov} (h : Inv W s rv p) (o : Op) :
+    Inv W (step W s o).1 (rvStep rv o) (p.step o) := by
   cases o with
-  | present tid =>
-    obtain ⟨_, b, c⟩ := present_spec hf h tid
-    exact ⟨b, c⟩
+  | present tid => exact (present_ok hf h tid).inv
   | revoke k =>
-    simp only [step, rvStep, clkStep]
+    simp only [step, rvStep]
     by_cases hk : s.revoked.contains k = true
     · simp only [hk, if_true]
-      refine ⟨⟨fun j => ?_, fun j a hj => ?_, h.cache⟩, by trivial⟩
+      refine ⟨fun j => ?_, fun j a hj => ?_, h.wf, h.j, h.fix, h.cache⟩
       · by_cases hjk : j = k
         · subst hjk; simpa using hk
         · simp only [hjk, if_false]; exact h.store j
@@ -291,7 +823,7 @@ theorem step_inv {W : World} (hf : W.fixed = true) {s : St} {rv : Nat → Bool} 
           simp [this]
         · simp only [hjk, if_false]; exact h.blc j a hj
     · simp only [hk]
-      refine ⟨⟨fun j => ?_, fun j a hj => by simp [lookupK] at hj, h.cache⟩, by trivial⟩
+      refine ⟨fun j => ?_, fun j a hj => by simp [lookupK] at hj, h.wf, ⟨h.j.hnow, h.j.hdoc, h.j.jc⟩, h.fix, h.cache⟩
       by_cases hjk : j = k
       · subst hjk; simp
       · have := h.store j
@@ -299,11 +831,11 @@ theorem step_inv {W : World} (hf : W.fixed = true) {s : St} {rv : Nat → Bool} 
         rw [← this]
         simp [hjk]
   | unrevoke k =>
-    simp only [step, rvStep, clkStep]
+    simp only [step, rvStep]
     by_cases hk : s.revoked.contains k = true
     case neg =>
       simp only [hk]
-      refine ⟨⟨fun j => ?_, fun j a hj => ?_, h.cache⟩, by trivial⟩
+      refine ⟨fun j => ?_, fun j a hj => ?_, h.wf, h.j, h.fix, h.cache⟩
       · by_cases hjk : j = k
         · subst hjk; simpa using hk
         · simp only [hjk, if_false]; exact h.store j
@@ -315,7 +847,7 @@ theorem step_inv {W : World} (hf : W.fixed = true) {s : St} {rv : Nat → Bool} 
           rw [this]; simpa using hk
         · simp only [hjk, if_false]; exact h.blc j a hj
     simp only [hk, if_true]
-    refine ⟨⟨fun j => ?_, fun j a hj => ?_, h.cache⟩, by trivial⟩
+    refine ⟨fun j => ?_, fun j a hj => ?_, h.wf, ⟨h.j.hnow, h.j.hdoc, h.j.jc⟩, h.fix, h.cache⟩
     · by_cases hjk : j = k
       · subst hjk; simp
       · have := h.store j
@@ -328,46 +860,227 @@ theorem step_inv {W : World} (hf : W.fixed = true) {s : St} {rv : Nat → Bool} 
       · simp only [hjk, if_false] at hj ⊢
         exact h.blc j a hj
   | flush =>
-    exact ⟨⟨fun j => by simp [step, rvStep], fun j a hj => by simp [step, lookupK] at hj, h.cache⟩, rfl⟩
+    exact ⟨fun j => by simp [step, rvStep], fun j a hj => by simp [step, lookupK] at hj, h.wf,
+      ⟨h.j.hnow, h.j.hdoc, h.j.jc⟩, h.fix, h.cache⟩
   | advance dt =>
-    refine ⟨⟨h.store, h.blc, fun tid e he => ?_⟩, rfl⟩
-    have g := h.cache tid e he
-    exact ⟨g.static, Nat.le_trans g.nbf (Nat.le_add_right _ _), g.user, g.exp, g.jti⟩
+    have hle := Prov.step_le h.wf (.advance dt)
+    refine ⟨h.store, h.blc, Prov.step_wf h.wf _, ⟨?_, h.j.hdoc, fun e he => ?_⟩, h.fix, fun tid e he => ?_⟩
+    · show s.now + dt = p.now + dt
+      rw [h.j.hnow]
+    · obtain ⟨τ, h1, h2⟩ := h.j.jc e he
+      obtain ⟨τ', h3, h4⟩ := hle _ _ _ h1
+      exact ⟨τ', h3, Nat.le_trans h2 h4⟩
+    · exact (h.cache tid e he).mono hle (Nat.le_add_right _ _) (fun hr => hr)
   | purge =>
-    exact ⟨⟨h.store, h.blc, fun tid e he => by simp [step, lookupK] at he⟩, rfl⟩
-  | evict tid =>
-    exact ⟨h.delCache tid, rfl⟩
+    exact ⟨h.store, h.blc, h.wf, ⟨h.j.hnow, h.j.hdoc, h.j.jc⟩, h.fix, fun tid e he => by simp [step, lookupK] at he⟩
+  | evict tid => exact h.delCache tid
   | blEvict k =>
-    exact ⟨⟨h.store, fun j a hj => h.blc j a (lookupK_delK_some hj), h.cache⟩, rfl⟩
+    exact ⟨h.store, fun j a hj => h.blc j a (lookupK_delK_some hj), h.wf, ⟨h.j.hnow, h.j.hdoc, h.j.jc⟩, h.fix, h.cache⟩
+  | setKeys doc =>
+    have hle := Prov.step_le h.wf (.setKeys doc)
+    refine ⟨h.store, h.blc, Prov.step_wf h.wf _, ⟨h.j.hnow, rfl, fun e he => ?_⟩, fun hr => (by cases hr),
+      fun tid e he => ?_⟩
+    · obtain ⟨τ, h1, h2⟩ := h.j.jc e he
+      obtain ⟨τ', h3, h4⟩ := hle _ _ _ h1
+      exact ⟨τ', h3, Nat.le_trans h2 h4⟩
+    · exact (h.cache tid e he).mono hle (Nat.le_refl _) (fun hr => by cases hr)
 
 theorem run_inv {W : World} (hf : W.fixed = true) (ops : List Op) :
-    ∀ {s : St} {rv : Nat → Bool}, Inv W s rv →
-      Inv W (run W s ops) (revokedAfter rv ops) ∧ (run W s ops).now = clock s.now ops := by
+    ∀ {s : St} {rv : Nat → Bool} {p : Prov}, Inv W s rv p →
+      Inv W (run W s ops) (revokedAfter rv ops) (Prov.run p ops) := by
   induction ops with
-  | nil => intro s rv h; exact ⟨h, rfl⟩
+  | nil => intro s rv p h; exact h
   | cons o os ih =>
-    intro s rv h
-    obtain ⟨h1, h2⟩ := step_inv hf h o
-    obtain ⟨h3, h4⟩ := ih h1
-    simp only [run, revokedAfter, clock]
-    exact ⟨h3, by rw [h4, h2]⟩
+    intro s rv p h
+    simp only [run, revokedAfter, Prov.run]
+    exact ih (step_inv hf h o)
+
+/-- a token that the history never presents has no result-cache entry -/
+theorem run_notCached {W : World} (hf : W.fixed = true) (tid : Nat) (ops : List Op) :
+    ∀ {s : St} {rv : Nat → Bool} {p : Prov}, Inv W s rv p → lookupK s.cache tid = none →
+      (∀ o, o ∈ ops → o ≠ .present tid) → lookupK (run W s ops).cache tid = none := by
+  induction ops with
+  | nil => intro s rv p _ hc _; exact hc
+  | cons o os ih =>
+    intro s rv p h hc hn
+    simp only [run]
+    refine ih (step_inv hf h o) ?_ (fun o' ho' => hn o' (by simp [ho']))
+    have hno := hn o (by simp)
+    cases o with
+    | present x =>
+      have hx : tid ≠ x := fun e => hno (by rw [e])
+      exact (present_ok hf h x).other tid hx hc
+    | revoke k =>
+      simp only [step]
+      split <;> exact hc
+    | unrevoke k =>
+      simp only [step]
+      split <;> exact hc
+    | flush => exact hc
+    | advance _ => exact hc
+    | purge => rfl
+    | evict x =>
+      show lookupK (delK s.cache x) tid = none
+      rw [lookupK_delK]
+      by_cases hx : tid = x <;> simp [hx, hc]
+    | blEvict _ => exact hc
+    | setKeys _ => exact hc
+
+/-- the provider as an outside observer sees it after the history -/
+def provAfter (W : World) (t0 : Nat) (pre : List Op) : Prov := Prov.run (Prov.init t0 W.jwks) pre
+
+theorem provAfter_now (W : World) (t0 : Nat) (pre : List Op) : (provAfter W t0 pre).now = clock t0 pre := by
+  unfold provAfter
+  rw [Prov.run_now]
+  rfl
 
 /-- the answer to "present token `tid`" after the history `pre` that started at time `t0` with empty
-    caches and an empty blacklist -/
+    caches, an empty blacklist and the JWKS cache just filled from the provider's start-up document -/
 def answer (W : World) (t0 : Nat) (pre : List Op) (tid : Nat) : Res :=
-  (present W (run W (init t0) pre) tid).2
+  (present W (run W (init t0 W.jwks) pre) tid).2
+
+theorem answer_ok (W : World) (hf : W.fixed = true) (t0 : Nat) (pre : List Op) (tid : Nat) :
+    CallOK W (run W (init t0 W.jwks) pre) (revokedAfter (fun _ => false) pre) (provAfter W t0 pre) tid
+      (present W (run W (init t0 W.jwks) pre) tid) :=
+  present_ok hf (run_inv hf pre (inv_init W t0)) tid
+
+/-- **C22, full strength, with a provider that may change its JWKS document at any moment.**  For every world
+    (library verdict, start-up JWKS, configuration, JWKS TTL) and every history: if presenting a token after the
+    history is answered "ok", then at that moment the token parses, its algorithm is RSA/ECDSA, its signature
+    verifies under a key that the provider's document has published for signatures — under the kid the header
+    names — at an instant of this history, issuer and audience match the configuration, nbf ≤ now < exp, and its
+    jti is not revoked. -/
+theorem C22_accept_implies (W : World) (hf : W.fixed = true) (t0 : Nat) (pre : List Op) (tid : Nat) (u : User)
+    (h : answer W t0 pre tid = .ok u) :
+    Accepted W (W.lib tid) (provAfter W t0 pre) (revokedAfter (fun _ => false) pre) :=
+  (answer_ok W hf t0 pre tid).acc u h
+
+/-- **Bounded staleness of the JWKS cache.**  A token WITH a kid that has no live result-cache entry (its
+    signature is checked in this call) is accepted only if the provider's document publishes the verifying key
+    under that kid NOW (`τ = now`), or did so less than one JWKS TTL ago (`now < τ + ttl`, where `τ` is the LAST
+    instant at which the provider published it): a withdrawn key stays trusted for less than one TTL. -/
+theorem C22_key_staleness (W : World) (hf : W.fixed = true) (t0 : Nat) (pre : List Op) (tid : Nat) (u : User)
+    (h : answer W t0 pre tid = .ok u) (hk : (W.lib tid).kid ≠ 0)
+    (hc : lookupK (run W (init t0 W.jwks) pre).cache tid = none) :
+    ∃ id τ, (W.lib tid).sigBy = some id ∧ (provAfter W t0 pre).last (W.lib tid).kid id = some τ ∧
+      τ ≤ clock t0 pre ∧ (τ = clock t0 pre ∨ clock t0 pre < τ + W.jwksTTL) := by
+  have c := answer_ok W hf t0 pre tid
+  obtain ⟨_, kid, id, τ, h1, h2, h3, h4⟩ := c.fresh u h hc
+  have hle := c.inv.wf.lastLe kid id τ h3
+  rw [h2 hk] at h3
+  rw [provAfter_now] at hle h4
+  refine ⟨id, τ, h1, h3, hle, ?_⟩
+  have := h4 hk
+  omega
+
+/-- a token the history never presented has no result-cache entry -/
+theorem C22_never_presented_not_cached (W : World) (hf : W.fixed = true) (t0 : Nat) (pre : List Op) (tid : Nat)
+    (hn : ∀ o, o ∈ pre → o ≠ .present tid) : lookupK (run W (init t0 W.jwks) pre).cache tid = none :=
+  run_notCached hf tid pre (inv_init W t0) (by simp [init, lookupK]) hn
+
+/-- **A withdrawn key stops being trusted after one JWKS TTL** (history form).  After `pre` the provider's
+    document does not publish key `k` under the token's kid, no document served during `post` does, and at least
+    one JWKS TTL passes during `post`: a token signed with `k` that was never presented is rejected — whatever
+    else happened in between (other tokens, unknown kids, cooldowns, purges, revocations). -/
+theorem C22_withdrawn_key_rejected (W : World) (hf : W.fixed = true) (httl : 0 < W.jwksTTL) (t0 : Nat)
+    (pre post : List Op) (tid k : Nat) (hkid : (W.lib tid).kid ≠ 0) (hsig : (W.lib tid).sigBy = some k)
+    (hnever : ∀ o, o ∈ pre ++ post → o ≠ .present tid)
+    (hgone : publishes (provAfter W t0 pre).doc (W.lib tid).kid k = false)
+    (hstay : ∀ d, Op.setKeys d ∈ post → publishes d (W.lib tid).kid k = false)
+    (htime : clock t0 pre + W.jwksTTL ≤ clock t0 (pre ++ post)) (u : User) :
+    answer W t0 (pre ++ post) tid ≠ .ok u := by
+  intro h
+  obtain ⟨id, τ, h1, h2, h3, h4⟩ := C22_key_staleness W hf t0 (pre ++ post) tid u h hkid
+    (C22_never_presented_not_cached W hf t0 _ tid hnever)
+  rw [hsig] at h1
+  injection h1 with h1
+  subst h1
+  have hl : (provAfter W t0 (pre ++ post)).last (W.lib tid).kid k = (provAfter W t0 pre).last (W.lib tid).kid k := by
+    unfold provAfter
+    rw [Prov.run_append]
+    exact Prov.run_last_unchanged _ _ post _ hgone hstay
+  rw [hl] at h2
+  have hle := (Prov.run_wf pre (Prov.init_wf t0 W.jwks)).lastLe _ _ _ h2
+  have hnow : (Prov.run (Prov.init t0 W.jwks) pre).now = clock t0 pre := provAfter_now W t0 pre
+  rw [hnow] at hle
+  omega
+
+/-! ## revocation (every history) -/
+
+theorem revokedAfter_append (r : Nat → Bool) (a b : List Op) :
+    revokedAfter r (a ++ b) = revokedAfter (revokedAfter r a) b := by
+  induction a generalizing r with
+  | nil => rfl
+  | cons o os ih => simp [revokedAfter, ih]
+
+theorem revokedAfter_stays (post : List Op) (j : Nat) :
+    ∀ (r : Nat → Bool), r j = true → (∀ o, o ∈ post → o ≠ .unrevoke j ∧ o ≠ .flush) →
+      revokedAfter r post j = true := by
+  induction post with
+  | nil => intro r h _; exact h
+  | cons o os ih =>
+    intro r h hp
+    simp only [revokedAfter]
+    apply ih
+    · have ho := hp o (by simp)
+      cases o with
+      | revoke k => simp only [rvStep]; by_cases hjk : j = k <;> simp [hjk, h]
+      | unrevoke k =>
+        simp only [rvStep]
+        have : j ≠ k := fun e => ho.1 (by rw [e])
+        simp [this, h]
+      | flush => exact absurd rfl ho.2
+      | present _ => exact h
+      | advance _ => exact h
+      | purge => exact h
+      | evict _ => exact h
+      | blEvict _ => exact h
+      | setKeys _ => exact h
+    · intro o' ho'
+      exact hp o' (by simp [ho'])
+
+/-- **Revocation takes effect for every later request**: after `revoke j`, as long as `j` is not
+    un-revoked (tokens.Delete / tokens.Flush), no token carrying that jti is accepted — whatever happened
+    before (seen or never seen), whatever happens in between (time, cache expiry, purges, key rotations). -/
+theorem C22_revocation_effective (W : World) (hf : W.fixed = true) (t0 : Nat) (pre post : List Op)
+    (j tid : Nat) (hj : j ≠ 0) (ht : (W.lib tid).jti = j)
+    (hpost : ∀ o, o ∈ post → o ≠ .unrevoke j ∧ o ≠ .flush) (u : User) :
+    answer W t0 (pre ++ .revoke j :: post) tid ≠ .ok u := by
+  intro h
+  have acc := C22_accept_implies W hf t0 _ tid u h
+  have h1 := acc.notRevoked (by rw [ht]; exact hj)
+  rw [ht, revokedAfter_append] at h1
+  simp only [revokedAfter] at h1
+  have h2 := revokedAfter_stays post j (rvStep (revokedAfter (fun _ => false) pre) (.revoke j)) (by simp [rvStep]) hpost
+  rw [h2] at h1
+  cases h1
+
+/-! ## while the provider does not change its document: both caches are transparent -/
+
+theorem provAfter_fixed (W : World) (t0 : Nat) (pre : List Op) (hnr : noRotation pre = true) :
+    (provAfter W t0 pre).rotated = false := by
+  unfold provAfter
+  rw [Prov.run_noRotation pre _ hnr]
+  rfl
+
+theorem run_now {W : World} (hf : W.fixed = true) (t0 : Nat) (pre : List Op) :
+    (run W (init t0 W.jwks) pre).now = clock t0 pre := by
+  have := (run_inv hf pre (inv_init W t0)).j.hnow
+  rw [this]
+  exact provAfter_now W t0 pre
 
 /-- **ValidateJWT is a function of the token, the clock and the revocation store only** — for every
-    history, whatever the result cache and the blacklist cache went through (hits, misses, sweeps, purges) -/
-theorem C22_present_eq_spec (W : World) (hf : W.fixed = true) (t0 : Nat) (pre : List Op) (tid : Nat) :
+    history in which the provider keeps its document, whatever the result cache, the blacklist cache and the JWKS
+    cache went through (hits, misses, sweeps, purges, TTL refreshes, unknown-kid refreshes and cooldowns) -/
+theorem C22_present_eq_spec (W : World) (hf : W.fixed = true) (t0 : Nat) (pre : List Op) (tid : Nat)
+    (hnr : noRotation pre = true) :
     answer W t0 pre tid = spec W (W.lib tid) (clock t0 pre) (revokedAfter (fun _ => false) pre) := by
-  obtain ⟨h1, h2⟩ := run_inv hf pre (inv_init W t0)
-  have := (present_spec hf h1 tid).1
-  rw [h2] at this
+  have := (answer_ok W hf t0 pre tid).spec (provAfter_fixed W t0 pre hnr)
+  rw [run_now hf] at this
   exact this
 
-/-- the conclusion of the property -/
-structure Accepted (W : World) (t : Tok) (now : Nat) (rv : Nat → Bool) : Prop where
+/-- the conclusion of the property for a provider with a fixed document -/
+structure AcceptedFixed (W : World) (t : Tok) (now : Nat) (rv : Nat → Bool) : Prop where
   parsed : t.parseOK = true
   alg : t.alg = .rsa ∨ t.alg = .ecdsa
   /-- the signature verifies under a key the provider publishes for signatures, selected by the kid -/
@@ -379,7 +1092,7 @@ structure Accepted (W : World) (t : Tok) (now : Nat) (rv : Nat → Bool) : Prop 
   notRevoked : t.jti ≠ 0 → rv t.jti = false
 
 theorem spec_ok_accepted {W : World} {t : Tok} {now : Nat} {rv : Nat → Bool} {u : User}
-    (h : spec W t now rv = .ok u) : Accepted W t now rv := by
+    (h : spec W t now rv = .ok u) : AcceptedFixed W t now rv := by
   cases hl : libAccepts W t now with
   | false => rw [spec_invalid hl] at h; cases h
   | true =>
@@ -413,98 +1126,53 @@ theorem spec_ok_accepted {W : World} {t : Tok} {now : Nat} {rv : Nat → Bool} {
         · intro hj0
           simpa [hj0] using hr
 
-/-- **C22, full strength.**  For every world (library verdict, JWKS, configuration) and every history:
-    if presenting a token after the history is answered "ok", then at that moment the token parses, its
-    algorithm is RSA/ECDSA, its signature verifies under the published signature key its kid selects, issuer
-    and audience match the configuration, nbf ≤ now < exp, and its jti is not revoked. -/
-theorem C22_accept_implies (W : World) (hf : W.fixed = true) (t0 : Nat) (pre : List Op) (tid : Nat) (u : User)
-    (h : answer W t0 pre tid = .ok u) :
-    Accepted W (W.lib tid) (clock t0 pre) (revokedAfter (fun _ => false) pre) := by
-  rw [C22_present_eq_spec W hf] at h
+/-- the provider keeps its document: accepted ⇒ the signature verifies under the entry of THAT document which
+    the header's kid selects (first usable entry with the kid; without kid the first usable entry) -/
+theorem C22_accept_implies_fixed_keys (W : World) (hf : W.fixed = true) (t0 : Nat) (pre : List Op) (tid : Nat)
+    (u : User) (hnr : noRotation pre = true) (h : answer W t0 pre tid = .ok u) :
+    AcceptedFixed W (W.lib tid) (clock t0 pre) (revokedAfter (fun _ => false) pre) := by
+  rw [C22_present_eq_spec W hf t0 pre tid hnr] at h
   exact spec_ok_accepted h
 
 theorem spec_congr {W : World} {t : Tok} {now : Nat} {rv rv' : Nat → Bool} (h : rv t.jti = rv' t.jti) :
     spec W t now rv = spec W t now rv' := by
   simp [spec, h]
 
-/-- **Seen before or not makes no difference.**  Two histories that agree on the clock and on what is
-    revoked give the same answer for every token — however different their presentations, cache sweeps and
-    purges were (in particular: a history in which the token was never presented). -/
+/-- **Seen before or not makes no difference.**  Two histories (with a provider that keeps its document) that
+    agree on the clock and on what is revoked give the same answer for every token — however different their
+    presentations, cache sweeps, purges and JWKS refreshes were (in particular: a history in which the token was
+    never presented). -/
 theorem C22_seen_or_not (W : World) (hf : W.fixed = true) (t0 : Nat) (pre pre' : List Op) (tid : Nat)
+    (hnr : noRotation pre = true) (hnr' : noRotation pre' = true)
     (hc : clock t0 pre = clock t0 pre')
     (hr : ∀ j, revokedAfter (fun _ => false) pre j = revokedAfter (fun _ => false) pre' j) :
     answer W t0 pre tid = answer W t0 pre' tid := by
-  rw [C22_present_eq_spec W hf, C22_present_eq_spec W hf, hc]
+  rw [C22_present_eq_spec W hf _ _ _ hnr, C22_present_eq_spec W hf _ _ _ hnr', hc]
   exact spec_congr (hr _)
 
-theorem revokedAfter_append (r : Nat → Bool) (a b : List Op) :
-    revokedAfter r (a ++ b) = revokedAfter (revokedAfter r a) b := by
-  induction a generalizing r with
-  | nil => rfl
-  | cons o os ih => simp [revokedAfter, ih]
-
-theorem revokedAfter_stays (post : List Op) (j : Nat) :
-    ∀ (r : Nat → Bool), r j = true → (∀ o, o ∈ post → o ≠ .unrevoke j ∧ o ≠ .flush) →
-      revokedAfter r post j = true := by
-  induction post with
-  | nil => intro r h _; exact h
-  | cons o os ih =>
-    intro r h hp
-    simp only [revokedAfter]
-    apply ih
-    · have ho := hp o (by simp)
-      cases o with
-      | revoke k => simp only [rvStep]; by_cases hjk : j = k <;> simp [hjk, h]
-      | unrevoke k =>
-        simp only [rvStep]
-        have : j ≠ k := fun e => ho.1 (by rw [e])
-        simp [this, h]
-      | flush => exact absurd rfl ho.2
-      | present _ => exact h
-      | advance _ => exact h
-      | purge => exact h
-      | evict _ => exact h
-      | blEvict _ => exact h
-    · intro o' ho'
-      exact hp o' (by simp [ho'])
-
-/-- **Revocation takes effect for every later request**: after `revoke j`, as long as `j` is not
-    un-revoked (tokens.Delete / tokens.Flush), no token carrying that jti is accepted — whatever happened
-    before (seen or never seen), whatever happens in between (time, cache expiry, purges). -/
-theorem C22_revocation_effective (W : World) (hf : W.fixed = true) (t0 : Nat) (pre post : List Op)
-    (j tid : Nat) (hj : j ≠ 0) (ht : (W.lib tid).jti = j)
-    (hpost : ∀ o, o ∈ post → o ≠ .unrevoke j ∧ o ≠ .flush) (u : User) :
-    answer W t0 (pre ++ .revoke j :: post) tid ≠ .ok u := by
-  intro h
-  have acc := C22_accept_implies W hf t0 _ tid u h
-  have h1 := acc.notRevoked (by rw [ht]; exact hj)
-  rw [ht, revokedAfter_append] at h1
-  simp only [revokedAfter] at h1
-  have h2 := revokedAfter_stays post j (rvStep (revokedAfter (fun _ => false) pre) (.revoke j)) (by simp [rvStep]) hpost
-  rw [h2] at h1
-  cases h1
-
 /-- **No spurious rejection** (the theorems above are not vacuous): a token the library accepts now, that
-    names a user and whose jti is not revoked, is accepted with that user after every history. -/
+    names a user and whose jti is not revoked, is accepted with that user after every history in which the
+    provider keeps its document. -/
 theorem C22_valid_accepted (W : World) (hf : W.fixed = true) (t0 : Nat) (pre : List Op) (tid : Nat) (u : User)
+    (hnr : noRotation pre = true)
     (hl : libAccepts W (W.lib tid) (clock t0 pre) = true) (hu : userOf W.cfg (W.lib tid) = some u)
     (hr : (W.lib tid).jti = 0 ∨ revokedAfter (fun _ => false) pre (W.lib tid).jti = false) :
     answer W t0 pre tid = .ok u := by
-  rw [C22_present_eq_spec W hf]
+  rw [C22_present_eq_spec W hf _ _ _ hnr]
   unfold spec
   simp only [hl, hu, Bool.not_true, Bool.false_eq_true, if_false]
   cases hr with
   | inl h => simp [h]
   | inr h => simp [h]
 
-/-! ## the code before fixes/C22.patch, and non-vacuity -/
+/-! ## the code before fixes/C22.patch, tokens without kid, and non-vacuity -/
 
 def demoTok : Tok :=
   { parseOK := true, alg := .ecdsa, kid := 5, sigBy := some 1, exp := 2000, nbf := 0, issOK := true,
     audOK := true, jti := 9, sub := 7, email := 0, pref := 0, client := 0 }
 
 def demoWorld (fixed : Bool) : World :=
-  { cfg := ⟨true, true, .sub⟩, jwks := [⟨5, true, true, 1⟩], lib := fun _ => demoTok, fixed := fixed }
+  { cfg := ⟨true, true, .sub⟩, jwks := [⟨5, true, true, 1⟩], lib := fun _ => demoTok, fixed := fixed, jwksTTL := 120 }
 
 /-- The code BEFORE the patch: an ES256 token with valid signature/iss/aud/exp whose jti was revoked before
     it was ever presented is accepted on first presentation and rejected only on the second. -/
@@ -530,5 +1198,32 @@ example : ∀ o, o ∈ [Op.advance 5, Op.purge, Op.present 1] → o ≠ .unrevok
   intro o ho
   simp at ho
   rcases ho with h | h | h <;> subst h <;> exact ⟨nofun, nofun⟩
+
+/-- the provider withdraws key 1 (kid 5) and publishes key 2 (kid 6) instead -/
+def rotatedDoc : List Jwk := [⟨6, true, true, 2⟩]
+
+/-- token 2 is like `demoTok` but carries NO kid -/
+def demoWorld2 : World :=
+  { demoWorld true with lib := fun tid => if tid = 2 then { demoTok with kid := 0 } else demoTok }
+
+/-- the staleness the JWKS TTL allows: 119 s after the withdrawal the (never presented) token signed with the
+    withdrawn key is still accepted from the cached key set; 120 s after it the key set is re-fetched and the
+    token is rejected; a token signed with the newly published key is accepted (non-vacuity of
+    `C22_key_staleness` and `C22_withdrawn_key_rejected`: both outcomes occur) -/
+example : answer demoWorld2 1000 [.setKeys rotatedDoc, .advance 119] 1 = .ok (.name 7) := by decide
+example : answer demoWorld2 1000 [.setKeys rotatedDoc, .advance 120] 1 = .invalid := by decide
+example : publishes (provAfter demoWorld2 1000 [.setKeys rotatedDoc]).doc 5 1 = false := by decide
+example : clock 1000 [.setKeys rotatedDoc] + demoWorld2.jwksTTL ≤ clock 1000 ([.setKeys rotatedDoc] ++ [.advance 120]) := by
+  decide
+
+/-- **Tokens WITHOUT a kid escape the bound** (selectVerificationKey → allKeys never looks at the age of the
+    cache): 900 seconds after the provider withdrew the key — the JWKS TTL is 120 s — a never-presented
+    token without kid that is signed with the withdrawn key is still accepted, while the same token WITH the kid is
+    rejected.  This is the excluded class of `C22_key_staleness` (hypothesis `kid ≠ 0`); known finding
+    `accept-withdrawn-key-token-without-kid`. -/
+theorem C22_nokid_stale_counterexample :
+    answer demoWorld2 1000 [.setKeys rotatedDoc, .advance 900] 2 = .ok (.name 7) ∧
+    answer demoWorld2 1000 [.setKeys rotatedDoc, .advance 900] 1 = .invalid := by
+  decide
 
 end EgoVerif.C22
